@@ -212,6 +212,11 @@ def run(ctx):
                     ne_ = nonempty_atom(a_.text, nm_)
                     if ne_ is not None:
                         empties.append(v_ != ne_)       # True = the list was empty
+            if not empties:
+                # no explicit test: the filtered list is known element by element on the path (`specific or [*]`)
+                kept_elems = [e for e in p.events if e.kind == 'call' and e.ftext == '<listcomp>.append']
+                if any(e.kind == 'loop-exit' for e in p.events):
+                    empties = [not kept_elems]
             pos = cur[NP][1]
             if empties and empties[-1]:
                 want_pos = [kept + [('star',)], [('star',)]]
@@ -251,9 +256,9 @@ def run(ctx):
         ok = ok and len(pos) == n_pos_iter and len(neg) == n_neg_iter
         if any(pos):
             exits = [e for e in p.events if e.kind in ('loop-exit', 'loop-break') and e.node is not None]
-            ok = ok and (any(neg) or any(e.kind == 'loop-exit' and norm(e.node.iter) == 'self.negative' for e in p.events))
+            ok = ok and (any(neg) or any(e.kind == 'loop-exit' and norm(e.value if getattr(e, 'value', None) is not None else e.node.iter) == 'self.negative' for e in p.events))
         else:
-            ok = ok and any(e.kind == 'loop-exit' and norm(e.node.iter) == 'self.positive' for e in p.events)
+            ok = ok and any(e.kind == 'loop-exit' and norm(e.value if getattr(e, 'value', None) is not None else e.node.iter) == 'self.positive' for e in p.events)
         ctx.check(ok, 'C12.5', 'list:some-positive-no-negative', f_ml.loc(),
                   'a list matches iff some alternative matches and no exclusion does (all of them consulted)',
                   'MatcherList.matches returns %s for alternatives %s / exclusions %s (%s)' % (norm(rv), pos, neg, others))
@@ -280,10 +285,12 @@ def run(ctx):
                     mm = re.match(r'^(?:(\w+)\[-1:\]|(\w+)\[:1\]|\[(\w+)\[-1\]\]|\[(\w+)\[0\]\])$', t)
                     nm = next((g_ for g_ in mm.groups() if g_), None) if mm else None
                     if nm:
-                        defs = [x for x in f.body_nodes() if isinstance(x, ast.Assign) and len(x.targets) == 1 and isinstance(x.targets[0], ast.Name) and x.targets[0].id == nm]
+                        defs = [x for x in f.body_nodes() if (isinstance(x, ast.Assign) and len(x.targets) == 1 and isinstance(x.targets[0], ast.Name) and x.targets[0].id == nm)
+                                or (isinstance(x, ast.NamedExpr) and x.target.id == nm)]
                         sel = len(defs) == 1 and re.match(r'^\[(\w+) for \1 in self\.positive if \1\.always\(\) is True\]$', norm(defs[0].value)) is not None
                         par = n._parent
-                        ok = bool(sel) and isinstance(par, ast.If) and norm(par.test) in (nm, 'len(%s) > 0' % nm, '%s != []' % nm) and n in par.body
+                        guard = isinstance(par, ast.If) and (norm(par.test) in (nm, 'len(%s) > 0' % nm, '%s != []' % nm) or (isinstance(par.test, ast.NamedExpr) and par.test.target.id == nm))
+                        ok = bool(sel) and guard and n in par.body
                 ctx.check(ok, 'C12.6', '%s:%s<-%s' % (q, which, t[:60]), f.loc(n),
                           'simplify rewrites %s only by simplifying each element, dropping never-matching constants, or collapsing to a single * alternative' % which,
                           '%s rewrites self.%s as %s: alternatives/exclusions that are not constants can be dropped or merged, so accumulated matchers lose members' % (q, which, t[:100]))
